@@ -24,7 +24,10 @@ inductive Vtx
   | node (id : Nat)
 deriving DecidableEq, Repr
 
-/-- One declared relation between a task and a node, or between two tasks. Direction = "must come before". -/
+/-- One declared relation between a task and a node, or between two tasks. Direction = "must come before".
+A task naming itself in `after` is no relation (an `after` expression may match the declaring task; the code
+discards it: `signatures.discard(task_signature)`); an `after` naming an id that no task has can never lie on a
+closed chain, so no existence condition is needed. -/
 inductive SpecEdge (P : Project) : Vtx → Vtx → Prop
   | dep {t : TaskSpec} {d : Nat} : t ∈ P.tasks → d ∈ t.deps → SpecEdge P (.node d) (.task t.id)
   | prod {t : TaskSpec} {p : Nat} : t ∈ P.tasks → p ∈ t.prods → SpecEdge P (.task t.id) (.node p)
@@ -293,7 +296,7 @@ theorem baseGraph_taskToNode (P : Project) : TaskToNode (baseGraph P) := by
   obtain ⟨t, _, p, _, rfl⟩ := baseGraph_task_src he h
   simp
 
-/-- The final graph: the base graph. -/
+/-- The graph `create_dag_from_session` hands to the scheduler: the base graph after `_modify_dag`. -/
 def finalGraph (P : Project) : G := modifyDag P (baseGraph P)
 
 /-- The edges `_modify_dag` adds: for `t` declared `after` `o`, one edge from every *product* of `o` to `t`. -/
